@@ -127,6 +127,161 @@ Print Assumptions C02_immediate_core_removes_exactly_the_victim_slot.
      the slot removal of the own array is proved above for all three non-vertex cores; what is still missing is that the handle
      CORRECTION applied to the referring higher-dimensional definitions (cache-guided or scan) is exactly the shift / transposition. *)
 
+(* ---------------------------------------------------------------------------------------------------------------------------
+   IMMEDIATE NON-FAST mode (deferred = false, fast = false): the handle CORRECTION half of the gap described above is closed here
+   for the index-shifting mode (Kernel/ShiftFace.v, ShiftEdge.v, ShiftVertex.v, ShiftCompose.v).  Still open: the transposition
+   of the swap-with-last (fast) mode, and the public delete_edge / delete_vertex compositions. *)
+From OVM Require Import Kernel.ExactInv Kernel2.ReorderExact Kernel2.ExactBase Kernel.ShiftFace Kernel.ShiftEdge Kernel.ShiftVertex Kernel.ShiftCompose.
+
+(* in the immediate non-fast mode no entity is ever flagged: no_flags holds initially and is kept by all four cores *)
+Theorem C02_immediate_no_flags_invariant :
+  no_flags empty_mesh /\
+  forall h s, deferred s = false -> fast s = false -> no_flags s ->
+    no_flags (delete_cell_core h s) /\ no_flags (delete_face_core h s) /\ no_flags (delete_edge_core h s) /\ no_flags (delete_vertex_core h s).
+Proof.
+  split; [exact no_flags_empty|]. intros h s D F N.
+  exact (conj (no_flags_delete_cell_core h s D F N) (conj (no_flags_delete_face_core h s D F N)
+        (conj (no_flags_delete_edge_core h s D F N) (no_flags_delete_vertex_core h s D F N)))).
+Qed.
+Print Assumptions C02_immediate_no_flags_invariant.
+
+(* (Fc) delete_face_core h = "remove slot h of the face array, rename every halfface handle above it in the cells":
+   fix2 h = drop 2h and 2h+1, then cor2 (2h+1).  One right-hand side for BOTH variants: the cache-guided one (fbu on: only the
+   cells found in inc_cell at the slots >= 2h are rewritten) needs the cache to be exact, the scan needs nothing.  When no cell
+   lists a halfface of face h (face_free: what delete_face/edge/vertex establish first) every cell is its old definition under
+   the shifted handles. *)
+Theorem C02_immediate_face_core_is_the_shift : forall h s, deferred s = false -> fast s = false -> no_flags s ->
+  (fbu s = true -> fbu_ok s /\ cells_in_range s /\ length (inc_cell s) = 2 * nf s) ->
+  let s' := delete_face_core h s in
+  nv s' = nv s /\ edges s' = edges s /\ faces s' = remove_nth h (faces s) /\
+  cells s' = map (fix2 h) (cells s) /\
+  (face_free s h -> cells s' = map (map (cor2 (2 * h + 1))) (cells s)) /\
+  inc_cell s' = (if fbu s then remove_nth (2 * h) (remove_nth (2 * h + 1) (inc_cell s)) else inc_cell s) /\
+  inc_hfs s' = (if ebu s then map (map (cor2 (2 * h + 1))) (inc_hfs (face_loop h s)) else inc_hfs s) /\
+  out_hes s' = out_hes s.
+Proof.
+  intros h s D F N HC. cbv zeta. pose proof (delete_face_core_view h s D F) as V. cbv zeta in V.
+  destruct V as (v1 & v2 & v3 & _ & _ & _ & _ & _ & v9 & v10 & v11 & _).
+  repeat split; try assumption.
+  - exact (delete_face_core_cells h s D F N HC).
+  - exact (delete_face_core_cells_shift h s D F N HC).
+Qed.
+Print Assumptions C02_immediate_face_core_is_the_shift.
+
+(* (Ec) delete_edge_core h = "remove slot h of the edge array, rename every halfedge handle above it in the faces" *)
+Theorem C02_immediate_edge_core_is_the_shift : forall h s, deferred s = false -> fast s = false -> no_flags s ->
+  (ebu s = true -> ebu_ok s /\ faces_in_range s /\ length (inc_hfs s) = 2 * ne s) ->
+  let s' := delete_edge_core h s in
+  nv s' = nv s /\ edges s' = remove_nth h (edges s) /\ cells s' = cells s /\
+  faces s' = map (fix2 h) (faces s) /\
+  (edge_free s h -> faces s' = map (map (cor2 (2 * h + 1))) (faces s)) /\
+  inc_hfs s' = (if ebu s then remove_nth (2 * h) (remove_nth (2 * h + 1) (inc_hfs s)) else inc_hfs s) /\
+  out_hes s' = (if vbu s then map (map (cor2 (2 * h + 1))) (edge_out h s) else out_hes s) /\
+  inc_cell s' = inc_cell s.
+Proof.
+  intros h s D F N HC. cbv zeta. pose proof (delete_edge_core_view h s D F) as V. cbv zeta in V.
+  destruct V as (v1 & v2 & _ & v4 & _ & _ & _ & _ & v9 & v10 & v11 & _).
+  repeat split; try assumption.
+  - exact (delete_edge_core_faces h s D F N HC).
+  - exact (delete_edge_core_faces_shift h s D F N HC).
+Qed.
+Print Assumptions C02_immediate_edge_core_is_the_shift.
+
+(* (Vc) delete_vertex_core h = "drop vertex h, decrement every endpoint above it".  The scan variant needs nothing; the
+   cache-guided loop (for i in [h, nv): for every outgoing halfedge of i: endpoints equal to i become i-1) needs the cache to be
+   exact, endpoints in range and no edge left at vertex h -- without the last hypothesis the two variants DIFFER (second part;
+   an internal call, not reachable through delete_vertex, which removes the incident edges first). *)
+Theorem C02_immediate_vertex_core_is_the_shift : forall h s, deferred s = false -> fast s = false -> no_flags s ->
+  (vbu s = true -> vbu_ok s /\ edges_in_range s /\ vertex_free s h) ->
+  let s' := delete_vertex_core h s in
+  nv s' = nv s - 1 /\ edges s' = map (cor1p h) (edges s) /\ faces s' = faces s /\ cells s' = cells s /\
+  out_hes s' = (if vbu s then remove_nth h (out_hes s) else out_hes s) /\ inc_hfs s' = inc_hfs s /\ inc_cell s' = inc_cell s.
+Proof.
+  intros h s D F N HC. cbv zeta. pose proof (delete_vertex_core_view h s D F) as V. cbv zeta in V.
+  destruct V as (v1 & _ & v3 & v4 & _ & _ & _ & _ & v9 & v10 & v11 & _).
+  repeat split; try assumption. exact (delete_vertex_core_edges h s D F N HC).
+Qed.
+Print Assumptions C02_immediate_vertex_core_is_the_shift.
+
+Theorem C02_vertex_core_variants_differ_without_vertex_free :
+  let s := run [EnableDeferred false; EnableFast false; AddVertices 2; AddEdge 0 1 false] in
+  let t := run [EnableDeferred false; EnableFast false; EnableVBU false; AddVertices 2; AddEdge 0 1 false] in
+  edges s = edges t /\ edges (delete_vertex_core 1 s) = [(0, 0)] /\ edges (delete_vertex_core 1 t) = [(0, 1)].
+Proof. exact delete_vertex_core_variants_differ. Qed.
+Print Assumptions C02_vertex_core_variants_differ_without_vertex_free.
+
+(* the renumbering half of C01: cache exactness (vbu_ok, ebu_ok, fbu_ok), in-range references, array lengths and no_flags
+   (= shift_inv) are PRESERVED by the index shift of each core.  For delete_face_core with BOTH ebu and fbu on the loop over the
+   halfedges of the dying face re-orders lists (reorder_incident_halffaces); then duplicate-free lists, closed live cells and
+   simple faces are needed (Kernel2/ReorderExact.v: without closed cells re-ordering can lose a halfface). *)
+Theorem C02_immediate_cores_keep_the_caches_exact : forall h s, deferred s = false -> fast s = false -> shift_inv s ->
+  (h < nv s -> vertex_free s h -> shift_inv (delete_vertex_core h s)) /\
+  (h < ne s -> edge_free s h -> shift_inv (delete_edge_core h s)) /\
+  (h < nf s -> face_free s h ->
+     (ebu s = true -> fbu s = true -> slots_nodup s /\ live_cells_closed s /\ faces_simple s) -> shift_inv (delete_face_core h s)).
+Proof.
+  intros h s D F I. split; [|split].
+  - exact (shift_inv_delete_vertex_core h s D F I).
+  - exact (shift_inv_delete_edge_core h s D F I).
+  - exact (shift_inv_delete_face_core_full h s D F I).
+Qed.
+Print Assumptions C02_immediate_cores_keep_the_caches_exact.
+
+(* delete_cell_core h: nothing but the cell array (slot h removed), its flag array, the halfface->cell cache (entries of the dying
+   cell cleared, larger cell handles decremented) and the ORDER inside the halfedge->halfface lists changes; the halfface->cell
+   cache stays exact *)
+Theorem C02_immediate_cell_core_effect : forall h s, deferred s = false -> fast s = false ->
+  let s' := delete_cell_core h s in
+  nv s' = nv s /\ edges s' = edges s /\ faces s' = faces s /\ cells s' = remove_nth h (cells s) /\
+  vdel s' = vdel s /\ edel s' = edel s /\ fdel s' = fdel s /\ cdel s' = remove_nth h (cdel s) /\
+  out_hes s' = out_hes s /\
+  inc_cell s' = (if fbu s then cell_inc h s else inc_cell s) /\
+  length (inc_hfs s') = length (inc_hfs s) /\ (ebu s && fbu s = false -> inc_hfs s' = inc_hfs s) /\
+  (fbu_inv s -> h < nc s -> fbu_inv s').
+Proof.
+  intros h s D F. cbv zeta. pose proof (delete_cell_core_view h s D F) as V. cbv zeta in V.
+  destruct V as (v1 & v2 & v3 & v4 & v5 & v6 & v7 & v8 & v9 & v10 & v11 & v12 & _).
+  refine (conj v1 (conj v2 (conj v3 (conj v4 (conj v5 (conj v6 (conj v7 (conj v8 (conj v9 (conj v10 (conj v11 (conj v12 _)))))))))))).
+  intros I Hh. exact (fbu_inv_delete_cell_core h s D F I Hh).
+Qed.
+Print Assumptions C02_immediate_cell_core_effect.
+
+(* the public delete_face f in immediate non-fast mode: vertices and edges untouched; the surviving faces are the old ones
+   without slot f (same definitions: the edges keep their handles); the surviving cells are EXACTLY the cells outside the closure
+   cells_at_faces s [f] (keep_slots: the entries at the indices not in the closure, in their old order), each with its old
+   definition read through the shift map; the same with the halfface->cell incidences on (exact) or off *)
+Theorem C02_immediate_delete_face_survivors : forall f s, deferred s = false -> fast s = false -> fbu_inv s -> f < nf s ->
+  let cs := cells_at_faces s [f] in
+  let s' := delete_face f s in
+  nv s' = nv s /\ edges s' = edges s /\
+  faces s' = remove_nth f (faces s) /\
+  cells s' = map (map (cor2 (2 * f + 1))) (keep_slots [] cs (cells s)) /\
+  nc s' = nc s - length cs /\
+  no_flags s' /\ deferred s' = false /\ fast s' = false.
+Proof. exact delete_face_immediate. Qed.
+Print Assumptions C02_immediate_delete_face_survivors.
+
+(* non-vacuity on reachable states (two properly oriented tetrahedra sharing face 3, all incidences on, immediate non-fast mode):
+   every hypothesis of the theorems above holds (decidable forms), the shift is not the identity, and the invariant holds again
+   after the step *)
+Definition two_tets_immediate : list op :=
+  [EnableDeferred false; EnableFast false; AddVertices 5; AddFaceV [0; 1; 2]; AddFaceV [0; 2; 3]; AddFaceV [0; 3; 1]; AddFaceV [1; 3; 2];
+   AddCell [0; 2; 4; 6] true; AddFaceV [1; 2; 4]; AddFaceV [2; 3; 4]; AddFaceV [3; 1; 4]; AddCell [7; 9; 11; 13] true].
+
+Example C02_immediate_concrete :
+  let s := run two_tets_immediate in
+  let closed_b t := forallb (fun c => c_deleted t c || LookupModel.closed_cell_b t c) (seq 0 (nc t)) in
+  (* the state in which DelFace 0 calls delete_face_core 0: the incident cell 0 is gone *)
+  let s1 := del_desc delete_cell_core (incident_cells_of_faces s [0]) s in
+  let s2 := delete_face_core 0 s1 in
+  deferred s = false /\ fast s = false /\ ebu s = true /\ fbu s = true /\ shift_inv_b s = true /\
+  cells s = [[0; 2; 4; 6]; [7; 9; 11; 13]] /\ cells_at_faces s [0] = [0] /\
+  shift_inv_b s1 = true /\ face_free_b s1 0 = true /\ slots_nodup_b s1 = true /\ closed_b s1 = true /\ faces_simple_b s1 = true /\
+  cells s1 = [[7; 9; 11; 13]] /\ cells s2 = [[5; 7; 9; 11]] /\ shift_inv_b s2 = true /\
+  run (two_tets_immediate ++ [DelFace 0]) = s2 /\
+  (let s3 := run (two_tets_immediate ++ [DelFace 3]) in cells_at_faces s [3] = [0; 1] /\ cells s3 = [] /\ nf s3 = 6 /\ shift_inv_b s3 = true).
+Proof. vm_compute. repeat split. Qed.
+
 (* non-vacuity: the two-tetrahedra state satisfies every hypothesis (checked by computation of the decidable versions) *)
 Example C02_concrete :
   let s := run [AddVertices 5; AddFaceV [0; 1; 2]; AddFaceV [0; 2; 3]; AddFaceV [0; 3; 1]; AddFaceV [1; 3; 2];
